@@ -361,6 +361,13 @@ func (s *Store) Tag(ctx context.Context, desc ocispec.Descriptor, reference stri
 	if !exists {
 		return fmt.Errorf("%s: %s: %w", desc.Digest, desc.MediaType, errdef.ErrNotFound)
 	}
+	if descriptor.IsManifest(desc) {
+		// index.json must only name manifests that can be loaded again: an entry
+		// whose content does not decode makes every later New() fail
+		if err := s.graph.Index(ctx, s.storage, desc); err != nil {
+			return err
+		}
+	}
 
 	return s.tag(ctx, desc, reference)
 }
